@@ -13,9 +13,9 @@ from . import c14
 def make_instances(ctx):
     rng = random.Random(ctx.seed + 2)
     out = []
-    shapes = ["edge", "chain4", "star4", "tri_tail", "cycle4", "cycle5", "cycle6", "k4", "two_tri"]
+    shapes = ["edge", "chain4", "star4", "tri_tail", "cycle4", "cycle5", "cycle6", "k4", "two_tri", "k5m", "wheel5", "core3x3"]
     if ctx.thorough:
-        shapes += ["cycle7", "grid23", "cycle5", "cycle6"]
+        shapes += ["cycle7", "grid23", "cycle5", "cycle6", "k5m", "wheel5", "core3x3"]
     for sh in shapes:
         out.append(mnutil.mn_instance(rng, len(out) + 1, sh, dup=rng.random() < 0.4, unary=rng.random() < 0.5,
                                       ternary=rng.random() < 0.5, zeros=False))
@@ -78,6 +78,31 @@ def selftest(ctx):
 
 
 # =========================================================================== worker side
+def _user_jt(jt, rng):
+    """the same clique tree written down by hand: every clique's variables in an independently permuted order (node tuple and
+    potential axes), so that sepsets reach the message computation in every relative axis order"""
+    import numpy as np
+    from pgmpy.factors.discrete import DiscreteFactor
+    from pgmpy.models import JunctionTree
+    new = JunctionTree()
+    ren = {}
+    for c in jt.nodes():
+        f = jt.get_factors(c)
+        order = list(f.variables)
+        rng.shuffle(order)
+        vals = np.asarray(f.values if not hasattr(f.values, "detach") else f.values.detach().cpu().numpy())
+        vals = np.transpose(vals, [f.variables.index(v) for v in order]).copy()
+        node = list(c)
+        rng.shuffle(node)
+        ren[c] = tuple(node)
+        new.add_node(ren[c])
+        new.add_factors(DiscreteFactor(order, [f.get_cardinality([v])[v] for v in order], vals,
+                                       state_names={v: list(f.state_names[v]) for v in order}))
+    for u, v in jt.edges():
+        new.add_edge(ren[u], ren[v])
+    return new
+
+
 def record(payload):
     from pgmpy import _verif
     from pgmpy.inference import BeliefPropagation, VariableElimination
@@ -87,7 +112,7 @@ def record(payload):
     rng0 = random.Random(payload["seed"])
     tid = payload["tid0"]
     for inst in payload["insts"]:
-        kinds = ["bn"] if inst["kind"] == "bn" else (["mn", "jt"] + ([] if c14._has_dups(inst) else ["fg"]))
+        kinds = ["bn"] if inst["kind"] == "bn" else (["mn", "jt", "ujt"] + ([] if c14._has_dups(inst) else ["fg"]))
         for kind in kinds:
             seed = payload["seed"] if payload.get("exact_seed") else rng0.randrange(10 ** 9)
             rng = random.Random(seed)
@@ -99,8 +124,10 @@ def record(payload):
                 model = mnutil.build_mn(inst, conc, rng)
             elif kind == "fg":
                 model = mnutil.build_fg(inst, conc, rng)
-            else:
+            elif kind == "jt":
                 model = mnutil.build_mn(inst, conc, rng).to_junction_tree()
+            else:
+                model = _user_jt(mnutil.build_mn(inst, conc, rng).to_junction_tree(), rng)
             idx = {}
 
             def tracer(evname, **f):
@@ -120,7 +147,7 @@ def record(payload):
             try:
                 bp = BeliefPropagation(model)
             except Exception as ex:  # noqa
-                events.append({"ev": "BeliefPropagation_raised", "exc": repr(ex)[:200]})
+                events.append({"ev": "raised", "api": "BeliefPropagation", "exc": repr(ex)[:200]})
                 out.append({"tid": tid, "seed": seed, "hashseed": hs, "mode": payload["mode"], "inst": dict(inst, kind=inst["kind"]), "events": events})
                 tid += 1
                 continue
@@ -128,7 +155,11 @@ def record(payload):
             try:
                 for op, fn in ((("marginalize", "calibrate"), ("maximize", "max_calibrate")) if payload["mode"] == "bp" else ()):
                     install(bp)
-                    getattr(bp, fn)()
+                    try:
+                        getattr(bp, fn)()
+                    except Exception as ex:  # noqa
+                        events.append({"ev": "raised", "api": fn, "exc": repr(ex)[:200]})
+                        break
                     cl = list(bp.junction_tree.nodes())
                     beliefs = [mnutil.proj_factor(bp.get_clique_beliefs()[c], conc)[0] for c in cl]
                     seps = []
